@@ -146,6 +146,17 @@ fn harnesses() -> Vec<Harness> {
         x.recursive = true;
         v.push(x);
     }
+    // recursive logging where the writer locks per write call (buffered std stream, duplicates)
+    for (name, mode, out, thorough_only) in [
+        ("buffered8/stdout/2x2/recursive", ModeK::BufDont(8), OutK::Stdout, false),
+        ("buffered64/stderr/2x2/recursive", ModeK::BufDont(64), OutK::Stderr, false),
+        // (not with duplicates: a record is formatted once per output, so a Display
+        // implementation that logs does so once per output)
+    ] {
+        let mut x = h(name, mode, out, CleanK::Never, false, 2, 2, &[9, 6], 0, thorough_only);
+        x.recursive = true;
+        v.push(x);
+    }
     for (name, mode, out, thorough_only) in [
         ("buffered64/file-norotation/2x2+reset-thread", ModeK::BufDont(64), OutK::File(None), false),
         ("buffered8/file-norotation/2x2+reset-thread", ModeK::BufDont(8), OutK::File(None), false),
